@@ -1022,6 +1022,24 @@ struct CY
         pos = v % (int)n;
         rc_check("set");
     }
+    void burst(unsigned k, int first) // k pushes of first, first+1, ...; logged once
+    {
+        c.log("push x%u from %d ", k, first);
+        for (unsigned i = 0; i < k; i++)
+        {
+            int v = (int)((uint32_t)first + i);
+            int ret = B.push(v);
+            if (m.size() == n)
+            {
+                VP_CHECK(ret == m.front(), "cy_push_overwritten", "push #%u of a burst (%d) returned %d, the overwritten sample is %d", i, v, ret, m.front());
+                m.pop_front();
+            }
+            m.push_back(v);
+            pushed++;
+            if ((i & 1023) == 0 || i + 1 == k)
+                check("burst push");
+        }
+    }
     void sweep()
     {
         c.log("sweep ");
@@ -1185,6 +1203,57 @@ void t_cyclic_large(Src &s, Case &c)
 VP_TARGET("cyclic_large", t_cyclic_large,
           "cyclic_buffer<int>(n) and the ring_counter helpers with n 250..262, 508..516, 41..300 and 3n+40 operations; same model "
           "as cyclic");
+
+void t_cyclic_huge(Src &s, Case &c)
+{
+    unsigned n = s.coin() ? s.pick<uint32_t>({32766, 32767, 32768, 32769, 44100, 48000, 65535, 65536, 65537, 96000})
+                          : (unsigned)s.range(30000, 70000);
+    uint32_t base = (uint32_t)s.biased_int<int32_t>();
+    c.log("cyclic_buffer<int>(%u): ", n);
+    CY Y(c, n);
+    Y.check("construction");
+    unsigned rounds = 2 + (unsigned)s.below(4);
+    for (unsigned r = 0; r < rounds; r++)
+    {
+        unsigned k;
+        switch (s.below(5))
+        {
+        case 0:
+            k = 1 + (unsigned)s.below(40);
+            break;
+        case 1:
+            k = n / 2 + (unsigned)s.below(3);
+            break;
+        case 2:
+            k = n - 1 + (unsigned)s.below(3);
+            break;
+        default:
+            k = (unsigned)s.range(0, (int)n);
+        }
+        Y.burst(k, (int)(base + (uint32_t)Y.pushed));
+        for (unsigned q = 0, nq = 1 + (unsigned)s.below(6); q < nq && !Y.m.empty(); q++)
+        {
+            unsigned sz = (unsigned)Y.m.size();
+            Y.at(s.coin() ? (unsigned)s.below(sz) : s.coin() ? sz - 1 - (unsigned)s.below(sz < 4 ? sz : 4) : (unsigned)s.below(sz < 4 ? sz : 4));
+        }
+        Y.prev((int)s.range(0, 3 * (int)n));
+        Y.last((int)s.range(-2 * (int)n, 3 * (int)n));
+        Y.fixup_pos((int)s.range(-3 * (int)n, 3 * (int)n));
+        Y.increment((int)s.range(0, 2 * (int)n));
+        Y.set((int)s.range(0, 3 * (int)n));
+    }
+    // every index once
+    for (unsigned i = 0; i < Y.m.size(); i++)
+        Y.at(i, false);
+    c.nontrivial = Y.pushed > n;
+    if (Y.pushed > n)
+        c.label("wrapped");
+    c.label(n >= 65536 ? "n>=65536" : n >= 32768 ? "n>=32768" : "n<32768");
+}
+VP_TARGET("cyclic_huge", t_cyclic_huge,
+          "cyclic_buffer<int>(n) and the ring_counter helpers with n 30000..70000 and 44100 / 48000 / 96000 / the neighbours of 2^15 and 2^16 (audio-rate delay lines): 2..5 "
+          "rounds of a push burst (up to n+1 samples, each return value against the model) followed by index reads, prev/last/fixup_pos/increment/set, then every index "
+          "once; non-trivial = the buffer wrapped");
 
 // ============================================================== enumeration
 // A  c ring:      size n x (head,tail) x fill pattern(3) x op(4n+12)
